@@ -277,16 +277,41 @@ func c01Leaf(r *Run) {
 			r.Check("MerkleTreeLeafFromChain:"+name+"-accepted", okRet == 1, r.FnPos(fn), fmt.Sprintf("entry type %s: %d success returns reachable", name, okRet))
 		}
 	}
-	r.ExpectStores(fn, "MerkleTreeLeafFromChain:x509.data", "&(new:ct.ASN1Cert#0.Data)", "p0[0].Raw", 1)
-	r.ExpectStores(fn, "MerkleTreeLeafFromChain:x509.entry", "&(new:ct.MerkleTreeLeaf#0.TimestampedEntry.X509Entry)", "new:ct.ASN1Cert#0", 1)
-	r.ExpectStores(fn, "MerkleTreeLeafFromChain:ts", "&(new:ct.TimestampedEntry#0.Timestamp)", "p2", 1)
-	r.ExpectStores(fn, "MerkleTreeLeafFromChain:etype", "&(new:ct.TimestampedEntry#0.EntryType)", "p1", 1)
-	r.ExpectStores(fn, "MerkleTreeLeafFromChain:etype2", "&(new:ct.MerkleTreeLeaf#0.TimestampedEntry.EntryType)", "1 || p1", 0)
-	r.ExpectStores(fn, "MerkleTreeLeafFromChain:version", "&(new:ct.MerkleTreeLeaf#0.Version)", "0", 1)
-	r.ExpectStores(fn, "MerkleTreeLeafFromChain:leaftype", "&(new:ct.MerkleTreeLeaf#0.LeafType)", "0", 1)
-	r.ExpectStores(fn, "MerkleTreeLeafFromChain:te", "&(new:ct.MerkleTreeLeaf#0.TimestampedEntry)", "new:ct.TimestampedEntry#0", 1)
-	r.ExpectStores(fn, "MerkleTreeLeafFromChain:precert.entry", "&(new:ct.MerkleTreeLeaf#0.TimestampedEntry.PrecertEntry)", "new:ct.PreCert#0", 1)
-	r.ExpectStores(fn, "MerkleTreeLeafFromChain:precert.tbs", "&(new:ct.PreCert#0.TBSCertificate)", "x509.BuildPrecertTBS(*)#0", 1)
+	// what the leaf handed back holds, per requested entry type — read off the object that the
+	// success return yields on the walk for that type, however it is put together (field
+	// assignments on a leaf prepared up front, one composite literal, a constructor of the module
+	// called for it).  The entry type stored is the requested one: the parameter itself or the
+	// constant it equals on that walk.
+	for _, c := range []struct {
+		name, etype string
+		s           Sigma
+	}{{"x509", "0", x509}, {"precert", "1", pre}} {
+		reach := r.D.Walk(fn, c.s, nil, nil)
+		r.Valuations++
+		var ret *ssa.Return
+		for _, rt := range reachableReturns(fn, reach) {
+			if errKind(rt.Results[1]) == "nil" {
+				ret = rt
+			}
+		}
+		if ret == nil {
+			r.Fail("MerkleTreeLeafFromChain:"+c.name+".leaf", r.FnPos(fn), "undecided: no success return for entry type "+c.name)
+			continue
+		}
+		k := "MerkleTreeLeafFromChain:"
+		sfx := "[" + c.name + "]"
+		leaf := ret.Results[0]
+		r.ExpectBuilt(fn, k+"version"+sfx, reach, ret, leaf, "Version", "0")
+		r.ExpectBuilt(fn, k+"leaftype"+sfx, reach, ret, leaf, "LeafType", "0")
+		r.ExpectBuilt(fn, k+"ts"+sfx, reach, ret, leaf, "TimestampedEntry.Timestamp", "p2")
+		r.ExpectBuilt(fn, k+"etype"+sfx, reach, ret, leaf, "TimestampedEntry.EntryType", "p1 || "+c.etype)
+		if c.name == "x509" {
+			r.ExpectBuilt(fn, k+"x509.data", reach, ret, leaf, "TimestampedEntry.X509Entry.Data", "p0[0].Raw")
+		} else {
+			r.ExpectBuilt(fn, k+"precert.tbs", reach, ret, leaf, "TimestampedEntry.PrecertEntry.TBSCertificate", "x509.BuildPrecertTBS(*)#0")
+			r.ExpectBuilt(fn, k+"precert.ikh", reach, ret, leaf, "TimestampedEntry.PrecertEntry.IssuerKeyHash", "sha256.Sum256(*)")
+		}
+	}
 	// pre-issuer correlation
 	tbs := r.OneCall(fn, "MerkleTreeLeafFromChain:BuildPrecertTBS", "x509.BuildPrecertTBS")
 	sum := r.OneCall(fn, "MerkleTreeLeafFromChain:Sum256", "sha256.Sum256")
@@ -299,7 +324,6 @@ func c01Leaf(r *Run) {
 			r.Check("MerkleTreeLeafFromChain:preIssuer[IsPreIssuer="+c.pi+"]", gotPI == c.preIssuer, r.Where(tbs), "preIssuer argument = "+gotPI+", want "+c.preIssuer)
 			r.Check("MerkleTreeLeafFromChain:issuerKeyHash[IsPreIssuer="+c.pi+"]", gotIss == c.issuer, r.Where(sum), "issuer key hash over "+gotIss+", want "+c.issuer)
 		}
-		r.ExpectStores(fn, "MerkleTreeLeafFromChain:precert.ikh", "&(new:ct.PreCert#0.IssuerKeyHash)", "sha256.Sum256(*)", 1)
 		r.ErrorsGate(fn, "MerkleTreeLeafFromChain:errors", "x509.BuildPrecertTBS", 1)
 	}
 	// chain too short ⇒ error
@@ -445,14 +469,27 @@ func c01LogLeaf(r *Run) {
 		r.ErrorsGate(fn, "buildLogLeaf:errors", "*", 2)
 	}
 	if fn := r.Fn("trillian/util.ExtraDataForChain"); fn != nil {
-		if c := r.OneCall(fn, "ExtraDataForChain:marshal", "tls.Marshal"); c != nil {
-			pre := r.ArgUnder(fn, c, 0, Sigma{"p2": "T"})
-			x := r.ArgUnder(fn, c, 0, Sigma{"p2": "F"})
-			r.Check("ExtraDataForChain[precert]", glob("*new:ct.PrecertChainEntry#0", pre), r.Where(c), "isPrecert ⇒ tls.Marshal("+pre+")")
-			r.Check("ExtraDataForChain[x509]", glob("*new:ct.CertificateChain#0", x), r.Where(c), "!isPrecert ⇒ tls.Marshal("+x+")")
+		// what is established: with isPrecert the function returns tls.Marshal of a PrecertChainEntry, without it
+		// tls.Marshal of a CertificateChain — whether one call serves both kinds or each branch has its own
+		calls := CallsTo(fn, "tls.Marshal")
+		r.Check("ExtraDataForChain:marshal", len(calls) >= 1 && len(calls) <= 2, r.FnPos(fn), fmt.Sprintf("%d tls.Marshal calls (one for both kinds, or one per kind)", len(calls)))
+		for _, kind := range []struct{ key, sigma, want string }{
+			{"ExtraDataForChain[precert]", "T", "*new:ct.PrecertChainEntry#0"},
+			{"ExtraDataForChain[x509]", "F", "*new:ct.CertificateChain#0"},
+		} {
+			reach := r.D.Walk(fn, Sigma{"p2": kind.sigma}, nil, nil)
+			r.Valuations++
+			n := 0
 			for _, ret := range Returns(fn) {
-				r.Check("ExtraDataForChain:returns-marshal", glob("tls.Marshal(*)#0", r.D.D(ret.Results[0])) && glob("tls.Marshal(*)#1", r.D.D(ret.Results[1])), r.Where(ret), "returns tls.Marshal's results")
+				if !reach.Has(ret) {
+					continue
+				}
+				n++
+				got0, got1 := r.D.DUnder(ret.Results[0], reach), r.D.DUnder(ret.Results[1], reach)
+				r.Check(kind.key, got0 == "tls.Marshal("+kind.want+")#0", r.Where(ret), "isPrecert="+kind.sigma+" ⇒ returns "+got0)
+				r.Check("ExtraDataForChain:returns-marshal", got1 == "tls.Marshal("+kind.want+")#1", r.Where(ret), "isPrecert="+kind.sigma+" ⇒ error returned is "+got1)
 			}
+			r.Check(kind.key+":returns", n >= 1, r.FnPos(fn), fmt.Sprintf("%d returns reachable with isPrecert=%s", n, kind.sigma))
 		}
 		r.ExpectStores(fn, "ExtraDataForChain:precert.cert", "&(new:ct.PrecertChainEntry#0.PreCertificate)", "p0", 1)
 		r.ExpectStores(fn, "ExtraDataForChain:precert.chain", "&(new:ct.PrecertChainEntry#0.CertificateChain)", "p1", 1)
